@@ -20,6 +20,8 @@ pub mod oracle;
 pub mod perp;
 pub mod pure;
 pub mod smoke;
+pub mod timelock;
+pub mod treasury;
 
 pub const REGISTRY: &[(&str, fn(&mut Ctx))] = &[
     ("C01", c01::run),
@@ -52,6 +54,8 @@ pub const REGISTRY: &[(&str, fn(&mut Ctx))] = &[
     ("C34", c34::run),
     ("C35", c35::run),
     ("C39", c39::run),
+    ("C36", timelock::run_c36),
+    ("C37", treasury::run_c37),
     ("C41", c41::run),
     ("C42", c42::run),
     ("C43", conv::run_c43),
